@@ -160,7 +160,9 @@ func propC17(o *out, r *rng, thorough bool) {
 	for _, t := range []string{"SELECT mean(value) FROM cpu WHERE host = 'a' AND time > now() - 1h GROUP BY time(5m), region fill(none)", "SELECT * FROM cpu, mem GROUP BY *",
 		"SELECT (v1 + value) * 2 FROM m WHERE (v1 > 1.5 OR usage < 5) AND region =~ /^(a|b)$/", "SELECT max(*), /v/ FROM (SELECT value, v1 FROM cpu GROUP BY host) WHERE s = 'x' GROUP BY time(1m, 10s)",
 		"SELECT top(value, host, 3), \"Default\" FROM \"sHoW\".\"rp\".cpu WHERE \"From\" = 1", "sHoW mEaSuReMeNtS", "CREATE USER \"Default\" WITH PASSWORD 'secret'", "SET PASSWORD FOR u = 'pw'",
-		"SELECT count(DISTINCT v1) FROM cpu WHERE time >= '2000-01-01T00:00:00Z' AND time < '2000-01-02' TZ('UTC')"} {
+		"SELECT count(DISTINCT v1) FROM cpu WHERE time >= '2000-01-01T00:00:00Z' AND time < '2000-01-02' TZ('UTC')",
+		// wildcard expansion over one measurement with explicit tag dimensions (the schema's maps are shared by all goroutines)
+		"SELECT * FROM cpu GROUP BY host", "SELECT *, value FROM cpu GROUP BY region, time(1m)", "SELECT mean(*) FROM cpu GROUP BY host, region", "SELECT /a/ FROM cpu GROUP BY *"} {
 		texts = append(texts, t)
 	}
 	texts = append(texts, loadCorpus("statements.json")...)
@@ -177,7 +179,7 @@ func propC17(o *out, r *rng, thorough bool) {
 	corpus := filepath.Join(o.dir, "corpus.txt")
 	must(os.WriteFile(corpus, []byte(strings.Join(texts, "\n")+"\n"), 0o644))
 	o.extra["corpus_statements"] = len(texts)
-	for _, t := range texts[:9] {
+	for _, t := range texts[:13] {
 		o.sample(t)
 		o.nontrivial(t)
 	}
